@@ -14,7 +14,7 @@ inline bool groupHasParams(const Snap &s, const std::string &g) {
 }
 
 // returns "" when all invariants hold, else a description of the first one broken
-inline std::string checkAgreement(const Snap &s, bool namedDeclarations, const std::set<size_t> *gaps = nullptr) {
+inline std::string checkAgreement(const Snap &s, bool namedDeclarations, const std::set<size_t> *gaps = nullptr, bool everyFrameCameWithSubframes = false) {
     auto isGap = [&](size_t f) { return gaps && gaps->count(f) != 0; };
     auto intOf = [&](const char *g, const char *p, long long &out) -> bool {
         const SParam *P = findParam(s, g, p); if (!P || P->type != 2 || P->ints.empty()) return false; out = P->ints[0]; return true;
@@ -56,6 +56,17 @@ inline std::string checkAgreement(const Snap &s, bool namedDeclarations, const s
             if (s.h.nbAnalogsMeasurement != s.h.nbAnalogs * s.h.nbAnalogByFrame) return "I3 analog samples per frame != channels x sub-frames";
         }
     } else if (s.h.nbAnalogByFrame >= 1 && s.h.nbAnalogs != 0) return "I3 header channels " + std::to_string(s.h.nbAnalogs) + " but ANALOG:USED 0";
+    if (aused == 0 && everyFrameCameWithSubframes) {
+        // no channel, but every frame was just read from a file: "header sub-frames-per-frame = sub-frames in each filled frame" holds for
+        // them too. (Frames the caller stored WITHOUT sub-frames on an object that declares an ANALOG:RATE, or a rate set later on such an
+        // object, are the don't-care of DESIGN §6 no. 1 and are not looked at.)
+        for (size_t f = 0; f < s.frames.size(); ++f) {
+            const SFrame &F = s.frames[f];
+            bool filled = (!F.pts.empty() || !F.subs.empty()) && !isGap(f);
+            if (filled && F.subs.size() != s.h.nbAnalogByFrame)
+                return "I3 frame " + std::to_string(f) + " has " + std::to_string(F.subs.size()) + " sub-frames (no channel), header " + std::to_string(s.h.nbAnalogByFrame);
+        }
+    }
     // I4
     {
         const SParam *R = findParam(s, "POINT", "RATE");
